@@ -44,7 +44,7 @@ claimed = {
    ref="DESIGN.md section 6 C10"),
  "C11": dict(
    text="GetDevices executed on k datagrams of symbolic length 0..2048 and content with a symbolic device table and broadcast port: the result is asserted to be, in arrival order, exactly one entry per well-formed get-device reply (each field from its protocol offset, address completed by the broadcast port, name from the table), nothing for the others, never an error",
-   note="bounds: seam level k <= 2 quick, <= 4 thorough (datagram length 0..2048); socket level: the real ut0311.Broadcast (collector goroutine, per-datagram receive buffer and its truncation) over the socket script with k <= 2 (3 thorough) datagrams of length 0..96 arriving within the timeout, one canonical goroutine schedule, replayed natively against a loopback peer. " + TRUST,
+   note="bounds: seam level k <= 2 quick, <= 3 thorough (datagram length 0..2048); socket level: the real ut0311.Broadcast (collector goroutine, per-datagram receive buffer and its truncation) over the socket script with k <= 2 (3 thorough) datagrams of length 0..96 arriving within the timeout, one canonical goroutine schedule, replayed natively against a loopback peer. " + TRUST,
    ref="DESIGN.md section 6 C11"),
  "C12": dict(
    text="bounded symbolic execution of bcd.Encode / bcd.Decode: every input byte is a solver variable, the property (exact digits, error iff non-digit / nibble > 9, both round trips) is asserted against an independent reference; unsat = holds for all 256^n inputs of each length n in the bound",
